@@ -7,6 +7,7 @@ R09.frame  alignZAxisWithTargetDir / rotationMatrixWithUpDir / computeLocalFrame
            orthonormal right-handed frames on the generic path and on every degenerate-input path
            nextFrame (Mi = I, unit tangents): rotation carrying ti onto tj and pi onto pj; general Mi: Mi * that matrix;
            lastFrame = Mi * translate(pj - pi); firstFrame: x axis = unit tangent, y axis normal to the three points, origin pi
+R09.range  every vector whose length a frame builder takes is of degree <= 1 in the direction arguments (no needless loss of range)
 R09.point  translation() returns the translation row
 """
 import itertools
@@ -255,10 +256,16 @@ def main(rep, ws, tier):
                            sample=None if bad else '%s [0][0] = %s' % (oid, T.show(outs[0], 4)[:300]))
                     continue
                 if kind == 'frame':
-                    check_frame(rep, oid, S, m, t, where)
-                    if m['rows'] == 'first': check_first_axes(rep, oid, S, t, where)
+                    # the range rule first: a builder that fails it is reported for that, and the scenario
+                    # enumeration (which can be long on an unrecognised rescaling) is not needed for a verdict
+                    n0 = sum(1 for o in rep.obs if o['status'] == VIOLATED)
+                    check_range(rep, oid, S, t, where)
+                    if sum(1 for o in rep.obs if o['status'] == VIOLATED) == n0:
+                        check_frame(rep, oid, S, m, t, where)
+                        if m['rows'] == 'first': check_first_axes(rep, oid, S, t, where)
                 if kind == 'next':
                     check_next(rep, oid, S, m, t, where, R)
+                    if m['rows'] == 'nextI': check_range(rep, oid, S, t, where)
             except (P.NotPoly, PC.Undecided, vg.Unsupported, OverflowError) as e:
                 rep.ob(oid, rule, UNDECIDED, str(e), where)
     rep.floor('transform builder instances', sum(1 for o in rep.obs if o['rule'] in ('R09.set', 'R09.pre')), 28 * len(types))
@@ -294,9 +301,129 @@ def frame_scenarios(rows, t):
                ('from along x', lambda c: axis(c, 'a1', 0))]
     return sc
 
+FLT_MAX = Fraction(2 ** 128 - 2 ** 104)
+DBL_MAX = Fraction(2 ** 1024 - 2 ** 971)
+
+def abstract_exponents(outs):
+    """A frame depends on the directions of its arguments only, so it has to come out right whatever power of two the
+    arguments are rescaled by: the binary exponent read by frexp becomes a free integer (R09.range decides, separately,
+    that the exponent used is that of the vector being rescaled), and a rescaling that is skipped for a non-finite or
+    zero magnitude (m > 0 && m <= max) is taken, the arguments of a scenario being finite and its zero vectors replaced
+    before."""
+    fe = {}
+    seen = set(); st = list(outs)
+    while st:
+        x = st.pop()
+        if x.id in seen: continue
+        seen.add(x.id); st.extend(x.args)
+        if x.op == 'call' and x.attr == 'frexp_exp' and x not in fe:
+            fe[x] = T.arg(200 + len(fe), x.ty)
+    if not fe: return outs
+    for _ in range(8):      # a guard may only become recognisable once an earlier one is resolved
+        pre = {}
+        for o in outs:
+            for c in P.all_conds(o):
+                v = magnitude_test(c, scaled=True)
+                if v is not None: pre[c] = v
+        if not pre: break
+        outs = [T.resolve(o, pre) for o in outs]
+    fe = {}
+    seen = set(); st = list(outs)
+    while st:
+        x = st.pop()
+        if x.id in seen: continue
+        seen.add(x.id); st.extend(x.args)
+        if x.op == 'call' and x.attr == 'frexp_exp' and x not in fe:
+            fe[x] = T.arg(200 + len(fe), x.ty)
+    memo = {}
+    return [T.subst(o, fe, memo) for o in outs]
+
+_MAXABS = {}
+def is_max_abs(m, scaled=False):
+    """m is max(|x|,|y|,|z|) of the three components of one vector argument, computed by selections only (no
+    arithmetic, so it is finite and non-zero whenever the vector is): evaluated on every sign/order pattern."""
+    r = _MAXABS.get((m.id, scaled))
+    if r is not None: return r[1]
+    class No(Exception): pass
+    scale = []
+    def ev(x, env):
+        if x.op == 'in': return env[x]
+        if scaled and x.op == 'call' and x.attr == 'ldexp':
+            # components already rescaled by one common power of two: the same selection, a positive factor apart
+            if not scale: scale.append(x.args[1])
+            if scale[0] is not x.args[1]: raise No()
+            return ev(x.args[0], env)
+        if x.op == 'const':
+            v = T.const_value(x)
+            if isinstance(v, str): raise No()
+            return v
+        if x.op == 'call' and 'fabs' in str(x.attr) and len(x.args) == 1: return abs(ev(x.args[0], env))
+        if x.op == 'ite': return ev(x.args[1], env) if ev(x.args[0], env) else ev(x.args[2], env)
+        if x.op == 'fcmp' and x.attr in ('olt', 'ole', 'ogt', 'oge', 'oeq', 'one', 'une'):
+            p, q = ev(x.args[0], env), ev(x.args[1], env)
+            return {'olt': p < q, 'ole': p <= q, 'ogt': p > q, 'oge': p >= q, 'oeq': p == q, 'one': p != q, 'une': p != q}[x.attr]
+        if x.op == 'not': return not ev(x.args[0], env)
+        raise No()
+    def arith(c):
+        st = [c]; seen = set()
+        while st:
+            x = st.pop()
+            if x.id in seen: continue
+            seen.add(x.id)
+            if scaled and x.op == 'call' and x.attr == 'ldexp':
+                st.append(x.args[0]); continue
+            st.extend(x.args)
+            if x.op in ('fadd', 'fmul', 'fdiv') or (x.op == 'call' and 'fabs' not in str(x.attr)): return True
+        return False
+    def one(m):
+        del scale[:]
+        ins = []
+        st = [m]; seen = set()
+        while st:
+            x = st.pop()
+            if x.id in seen: continue
+            seen.add(x.id)
+            if scaled and x.op == 'call' and x.attr == 'ldexp':
+                st.append(x.args[0]); continue
+            st.extend(x.args)
+            if x.op == 'in' and x not in ins: ins.append(x)
+        try:
+            if not ins: return ev(m, {}) > 0          # a replacement direction such as (0,1,0)
+            if len(ins) != 3 or len({i.attr[0] for i in ins}) != 1: return False
+            for vals in itertools.product((-3, -2, -1, 0, 1, 2, 3), repeat=3):
+                if ev(m, dict(zip(ins, vals))) != max(abs(v) for v in vals): return False
+        except No:
+            return False
+        return True
+    # conditions that are not selections among the components (is the vector null?) are split on: either way the
+    # magnitude has to be that of the vector then in use
+    def split(m, depth):
+        outer = [c for c in P.all_conds(m) if arith(c)]
+        if not outer: return one(m)
+        if depth > 6: return False
+        c = min(outer, key=T.size)      # innermost first: the comparisons among components come last
+        return split(T.resolve(m, {c: True}), depth + 1) and split(T.resolve(m, {c: False}), depth + 1)
+    ok = split(m, 0)
+    _MAXABS[(m.id, scaled)] = (m, ok)
+    return ok
+
+def magnitude_test(c, scaled=False):
+    """m > 0 / m <= max for m a maximum of |components| that feeds a frexp: True for a finite non-zero vector.
+    scaled: m may be taken of components that one earlier power-of-two rescaling has been applied to (for the frame
+    identities, where either branch is the same frame over the reals; not for the range rule)."""
+    if c.op != 'fcmp': return None
+    a, b = c.args
+    def mag(x):
+        return x.op != 'const' and is_max_abs(x, scaled)
+    if c.attr == 'ogt' and b.op == 'const' and T.const_value(b) == 0 and a.op != 'const' and mag(a): return True
+    if c.attr == 'olt' and a.op == 'const' and T.const_value(a) == 0 and b.op != 'const' and mag(b): return True
+    if c.attr == 'ole' and b.op == 'const' and T.const_value(b) in (FLT_MAX, DBL_MAX) and mag(a): return True
+    return None
+
 def check_frame(rep, oid, S, m, t, where):
     E, sz, lt = ELEM[t]
     outs = [S.out('a0', i * sz, sz, lt) for i in range(16)]
+    outs = abstract_exponents(outs)
     ncase = 0; bad = None; detail = []
     for scname, setup in frame_scenarios(m['rows'], t):
         ctx = P.Ctx()
@@ -485,6 +612,87 @@ def check_first_axes(rep, oid, S, t, where):
     except (P.NotPoly, PC.Undecided) as e:
         rep.ob(oid + '#axes', 'R09.frame', UNDECIDED, str(e)[:300], where); return
     rep.ob(oid + '#axes', 'R09.frame', VIOLATED if bad else HOLDS, bad or 'x axis = unit tangent, y axis normal to the plane of the three points, origin pi', where)
+
+def check_range(rep, oid, S, t, where):
+    """R09.range: a frame builder is scale-invariant in its direction arguments, but its intermediate vectors are not: a
+    vector whose components are homogeneous of degree k in the arguments has a squared length of degree 2k, which
+    overflows for arguments near max^(1/2k) and flushes to zero near min^(1/2k).  Every vector whose length is taken must
+    therefore be of degree <= 1 (a direction times unit vectors), the same range as Vec3::length() itself (C08)."""
+    E, sz, lt = ELEM[t]
+    outs = [S.out('a0', i * sz, sz, lt) for i in range(16)]
+    for _ in range(12):
+        pre = regular_premises(outs)
+        if not pre: break
+        outs = [T.resolve(o, pre) for o in outs]
+    # a rescaling guarded by "magnitude finite and non-zero" is taken for the finite arguments the rule is about
+    for _ in range(8):
+        pre = {}
+        for o in outs:
+            for c in P.all_conds(o):
+                if magnitude_test(c): pre[c] = True
+        if not pre: break
+        outs = [T.resolve(o, pre) for o in outs]
+    memo = {}
+    foreign = []
+    def bases(n):
+        r = set(); st_ = [n]; sn_ = set()
+        while st_:
+            y = st_.pop()
+            if y.id in sn_: continue
+            sn_.add(y.id); st_.extend(y.args)
+            if y.op == 'in': r.add(y.attr[0])
+        return r
+    def degree(n):
+        r = memo.get(n.id)
+        if r is not None: return r
+        op = n.op
+        if op == 'in': r = Fraction(1)
+        elif op in ('const', 'arg'): r = Fraction(0)
+        elif op == 'fadd': r = max(degree(a) for a in n.args)
+        elif op == 'fmul': r = sum(degree(a) for a in n.args)
+        elif op == 'fdiv': r = degree(n.args[0]) - degree(n.args[1])
+        elif op in ('fneg', 'absi', 'fpext', 'fptrunc'): r = degree(n.args[0])
+        elif op == 'call' and n.attr == 'sqrt': r = degree(n.args[0]) / 2
+        elif op == 'call' and n.attr == 'ldexp':
+            # x * 2^(-e) with e the binary exponent of a quantity M of the arguments (frexp): degree(x) - degree(M),
+            # provided M is a magnitude of the very argument x comes from (each direction scales on its own)
+            kx = n.args[1]; sgn = 1
+            if kx.op == 'sub' and kx.args[0].op == 'const' and T.const_value(kx.args[0]) == 0: kx = kx.args[1]; sgn = -1
+            fe = None
+            st_ = [kx]; sn_ = set()
+            while st_:
+                y = st_.pop()
+                if y.id in sn_: continue
+                sn_.add(y.id); st_.extend(y.args)
+                if y.op == 'call' and y.attr == 'frexp_exp': fe = y; break
+            r = degree(n.args[0])
+            if fe is not None:
+                bx, bm = bases(n.args[0]), bases(fe.args[0])
+                if bx == bm and is_max_abs(fe.args[0]): r = r + sgn * degree(fe.args[0])
+                else: foreign.append((sorted(bx), sorted(bm)))
+        elif op == 'call' and 'fabs' in str(n.attr): r = degree(n.args[0])
+        elif op == 'ite': r = max(degree(n.args[1]), degree(n.args[2]))
+        else: r = Fraction(0)
+        memo[n.id] = r
+        return r
+    degs = {}
+    seen = set(); st = list(outs)
+    while st:
+        x = st.pop()
+        if x.id in seen: continue
+        seen.add(x.id); st.extend(x.args)
+        if x.op == 'call' and x.attr == 'sqrt':
+            d = degree(x.args[0])
+            degs[d] = degs.get(d, 0) + 1
+    if not degs:
+        rep.ob(oid + '#range', 'R09.range', UNDECIDED, 'no length computation found', where); return
+    big = sorted(d for d in degs if d > 2)
+    if not big:
+        rep.ob(oid + '#range', 'R09.range', HOLDS, 'every vector whose length is taken is of degree <= 1 in the arguments (%d length computations)' % sum(degs.values()), where)
+    for d in big:
+        rep.ob(oid + '#range[degree %s]' % (d / 2), 'R09.range', VIOLATED,
+               'the length of a vector of degree %s in the direction arguments is taken (%d site(s)): its squared length has degree %s, so it overflows to inf (the axis comes back as 0 or NaN) once the arguments exceed about max^(1/%s) although the result only depends on their directions%s'
+               % (d / 2, degs[d], d, d, ('; a component of argument %s is rescaled by the binary exponent of argument %s, which bounds nothing' % ('/'.join(foreign[0][0]), '/'.join(foreign[0][1]))) if foreign else ''), where)
 
 def show_bits(enum, bits):
     return ', '.join('%s=%s' % (T.show(c, 2)[:60], 'T' if b else 'F') for c, b in zip(enum, bits))
